@@ -83,7 +83,7 @@ def run(ctx):
     ctx.notes['local_steps'] = sum(1 for tr in traces for r in tr if r['ev'] == 'step')
     for tr in traces[2:len(traces):max(1, len(traces) // 5)]:
         ctx.sample([{k: v for k, v in r.items() if k not in ('v_old', 'v_new_scaled')} for r in tr][:4])
-    bad = validate_chunks(ctx, 'TraceCanon', 'tcn', traces, chunk=ctx.pick(100, 1000))
+    bad = validate_chunks(ctx, 'TraceCanon', 'tcn', traces, chunk=ctx.pick(100, 1000), relax=canon.relax)
     for idx, why in sorted(bad.items())[:40]:
         c = cases[idx]
         clause = why[0][2] if why and len(why[0]) > 2 else 'rejected'
